@@ -24,6 +24,14 @@ void *sut_insert(void *tree, uint64_t key, uint64_t seq) { return static_cast<Tr
 void sut_erase(void *tree, uint64_t key) { static_cast<Tree *>(tree)->erase(key); }
 void sut_iterate(void *tree, void (*cb)(void *, void *), void *ctx) {
 	auto t = static_cast<Tree *>(tree);
-	for (auto it = t->begin(); it != t->end(); ++it) cb(&*it, ctx);
+	bool flip = false;
+	// two styles: operator* with !=, and operator-> with == ; successive positions must compare unequal, a copy equal
+	for (auto it = t->begin(); it != t->end();) {
+		auto here = it;
+		if (!(here == it) || here != it) cb(nullptr, ctx); // a copy must compare equal
+		cb((flip = !flip) ? &*it : it.operator->(), ctx);
+		++it;
+		if (here == it) cb(nullptr, ctx);                  // the next position must differ from the previous one
+	}
 }
 }
